@@ -498,6 +498,73 @@ def run_norm(case):
 
 
 # ---------------------------------------------------------------------------
+# 5b. norm / overlap with explicit output labels ('hyper' norms), and the Tensor-level overlap spellings
+# ---------------------------------------------------------------------------
+
+@st.composite
+def s_norm_out(draw, tier):
+    desc = draw(G.networks(repeat=False))
+    labels = sorted(desc["sizes"])
+    out = draw(st.lists(st.sampled_from(labels), unique=True, max_size=3)) if labels else []
+    other_seeds = [draw(A.seeds) for _ in desc["tensors"]]
+    return {"net": desc, "out": out, "other_seeds": other_seeds, "other_exp": draw(st.sampled_from([0.0, 1.5, -2.0])),
+            "route": draw(st.sampled_from(["norm", "norm_sq", "make_norm", "overlap", "make_overlap", "tensor_overlap_tn",
+                                           "tn_overlap_tensor", "tensor_overlap_tensor"]))}
+
+
+def run_norm_out(case):
+    """documented: `output_inds` = the labels treated as outputs (everything else is summed *inside* the ket and, separately,
+    inside the bra): norm = Frobenius norm of the tensor denoted over those labels, overlap = sum_O x[O] conj(y[O])"""
+    Q = qtn()
+    desc = case["net"]
+    out = tuple(case["out"])
+    route = case["route"]
+    tn, expo = build(desc)
+    x, mag = G.ref_value(desc, out)
+    x = x * 10.0 ** expo
+    floor = mag * 10.0 ** expo
+    tol = tol_of(desc) * 10
+    nrm = float(np.sqrt(np.sum(np.abs(x) ** 2)))
+    info = dict(route=route, exp_nonzero=expo != 0, omits_dangling=bool(set(G.net_outer(desc)) - set(out)))
+    if route == "norm":
+        got, ref, fl = tn.norm(output_inds=out), nrm, floor
+    elif route == "norm_sq":
+        got, ref, fl = tn.norm(output_inds=out, squared=True), nrm ** 2, floor ** 2
+    elif route == "make_norm":
+        got, ref, fl = tn.make_norm(output_inds=out).contract(all, output_inds=()), nrm ** 2, floor ** 2
+    else:
+        d2 = {"tensors": [dict(t, seed=s_) for t, s_ in zip(desc["tensors"], case["other_seeds"])], "sizes": desc["sizes"],
+              "exponent": case["other_exp"] if not G.net_single(desc) else 0.0}
+        tn2, expo2 = build(d2)
+        y, mag2 = G.ref_value(d2, out)
+        y = y * 10.0 ** expo2
+        fl = floor * mag2 * 10.0 ** expo2
+        ref = np.sum(x * np.conj(y))  # the argument is the conjugated one, in every spelling
+        if route == "overlap":
+            got = tn.overlap(tn2, output_inds=out)
+        elif route == "make_overlap":
+            got = tn.make_overlap(tn2, output_inds=out).contract(all, output_inds=())
+        else:
+            # Tensor-level spellings: the dense tensors the two networks denote over `out`
+            dt = np.complex128 if (np.iscomplexobj(x) or np.iscomplexobj(y)) else np.float64
+            tx = Q.Tensor(np.asarray(x, dtype=np.complex128), out)
+            ty = Q.Tensor(np.asarray(y, dtype=np.complex128), out)
+            if route == "tensor_overlap_tensor":
+                got = tx.overlap(ty)
+            elif G.net_is_hyper(desc) or set(out) != set(G.net_outer(desc)):
+                raise Reject("Tensor<->network overlap has no output_inds: only plain networks over their outer labels")
+            elif route == "tensor_overlap_tn":
+                got = tx.overlap(tn2)
+            else:
+                got = tn.overlap(ty)
+    e = rel_err(np.array(complex(got)), np.array(ref), floor=fl)
+    if not e <= tol:
+        raise Violation("value", err=e, **info)
+    return {"nt": len(desc["tensors"]) >= 2, "cls": classes(desc, route) + (["omits-dangling"] if info["omits_dangling"] else []) +
+            ([f"nout={len(out)}"]), "err": e}
+
+
+# ---------------------------------------------------------------------------
 # 6. exponent book-keeping operations followed by contraction
 # ---------------------------------------------------------------------------
 
@@ -921,6 +988,11 @@ SUBCHECKS = [
              rule="contract_cumulative / >> over tag-group sequences; nt: >=2 groups"),
     SubCheck("to_dense", run_to_dense, s_to_dense, examples=(200, 3000), shards=(1, 4),
              rule="to_dense over grouped label permutations incl. hyper networks; nt as RULE"),
+    SubCheck("norm_overlap_out", run_norm_out, s_norm_out, examples=(250, 3000), shards=(1, 4),
+             rule="networks incl. hyper labels x explicit output_inds (any subset of the labels, incl. ones that omit a dangling "
+                  "label) x norm / norm(squared) / make_norm / overlap / make_overlap, and the Tensor.overlap(Tensor | network) / "
+                  "network.overlap(Tensor) spellings; reference = Frobenius norm / inner product of the einsum tensors over the "
+                  "output labels (the argument conjugated); nt: >= 2 tensors"),
     SubCheck("norm_overlap_trace", run_norm, s_norm, examples=(200, 3000), shards=(1, 4),
              rule="norm, norm(squared), overlap, make_norm, make_overlap, H@, trace vs dense; nt as RULE"),
     SubCheck("exponent_ops", run_exponent_ops, s_exponent_ops, examples=(200, 3000), shards=(1, 4),
